@@ -70,6 +70,16 @@ theorem transports_separate (cfg : Cfg) (fs : Call → Ans) (req : Bytes) (hcap 
     (cfg.fusedev = false → (handle cfg fs req).out.sys = []) :=
   ⟨(good_handle cfg fs req hcap hfs).sepF, (good_handle cfg fs req hcap hfs).sepV⟩
 
+/-- **Nothing larger than the reply buffer is ever handed to the transport**: every message written
+    to /dev/fuse and the bytes stored in the virtio-fs reply area fit the capacity the client
+    supplied — for every request, transport and file system (the model-level statement of "no
+    write beyond the reply descriptors"; the bounds of the descriptor arithmetic itself are C04's
+    `accesses_in_bounds`, and the harness surrounds every real buffer with canaries). -/
+theorem reply_fits_reply_buffer (cfg : Cfg) (fs : Call → Ans) (req : Bytes) (hcap : cfg.cap < 2 ^ 32)
+    (hfs : FsSane fs) :
+    (∀ m ∈ (handle cfg fs req).out.sys, m.length ≤ cfg.cap) ∧ (handle cfg fs req).out.area.length ≤ cfg.cap :=
+  ⟨(good_handle cfg fs req hcap hfs).fitsSys, (good_handle cfg fs req hcap hfs).fitsArea⟩
+
 /-- FORGET and BATCH_FORGET never produce a reply — whatever the body, the header length, the
     capacity, the transport or the file system (no hypothesis at all). -/
 theorem forget_never_replies (cfg : Cfg) (fs : Call → Ans) (req : Bytes)
@@ -207,6 +217,12 @@ theorem async_reply_well_formed_virtio (cfg : Cfg) (fs : Call → Ans) (req : By
     (Fbr.SrvAsync.handle cfg fs req).out.area = [] ∨
       WfArea (uniqueOf req) (Fbr.SrvAsync.handle cfg fs req).out.area :=
   (async_good_handle cfg fs req hcap hfs).areaWf
+
+theorem async_reply_fits_reply_buffer (cfg : Cfg) (fs : Call → Ans) (req : Bytes) (hcap : cfg.cap < 2 ^ 32)
+    (hfs : FsSane fs) :
+    (∀ m ∈ (Fbr.SrvAsync.handle cfg fs req).out.sys, m.length ≤ cfg.cap) ∧
+      (Fbr.SrvAsync.handle cfg fs req).out.area.length ≤ cfg.cap :=
+  ⟨(async_good_handle cfg fs req hcap hfs).fitsSys, (async_good_handle cfg fs req hcap hfs).fitsArea⟩
 
 /-- non-vacuity of the hypotheses: a concrete sane file system and capacity -/
 example : FsSane (fun _ => Ans.err (.os 2)) ∧ (4096 : Nat) < 2 ^ 32 := by
